@@ -13,6 +13,17 @@ import (
 // ErrInjected is the reader failure injected by fault modes.
 var ErrInjected = errors.New("verif: injected read failure")
 
+// temporaryError describes itself as temporary and as a timeout (like EAGAIN, EINTR, a deadline): a failure that
+// persists must still be reported as this very error.
+type temporaryError struct{}
+
+func (temporaryError) Error() string   { return "verif: injected read failure that calls itself temporary" }
+func (temporaryError) Temporary() bool { return true }
+func (temporaryError) Timeout() bool   { return true }
+
+// ErrTemporary is the persistent "temporary" reader failure.
+var ErrTemporary error = temporaryError{}
+
 // Event is one scan-hook observation (requires -tags verif in panicparse).
 type Event struct {
 	Before, After string
